@@ -2039,30 +2039,48 @@ impl Fs {
             }
         }
 
-        // Overlay pending writes (need to check the content path)
+        // Overlay pending writes and truncations in log order (need to check
+        // the content path)
         for op in &self.pending {
-            if let PendingOp::Write {
-                path: p,
-                offset: write_off,
-                data,
-                ..
-            } = op
-            {
-                // Check if this write applies to the content path
-                let write_applies = p == &content_path || self.path_renamed_to(p, &content_path);
-                if write_applies {
-                    let write_end = write_off + data.len() as u64;
-                    let read_end = offset + to_read as u64;
-                    if *write_off < read_end && write_end > offset {
-                        let overlap_start = write_off.max(&offset);
-                        let overlap_end = write_end.min(read_end);
-                        let src_offset = (overlap_start - write_off) as usize;
-                        let dst_offset = (overlap_start - offset) as usize;
-                        let len = (overlap_end - overlap_start) as usize;
-                        buf[dst_offset..dst_offset + len]
-                            .copy_from_slice(&data[src_offset..src_offset + len]);
+            match op {
+                PendingOp::Write {
+                    path: p,
+                    offset: write_off,
+                    data,
+                    ..
+                } => {
+                    // Check if this write applies to the content path
+                    let write_applies =
+                        p == &content_path || self.path_renamed_to(p, &content_path);
+                    if write_applies {
+                        let write_end = write_off + data.len() as u64;
+                        let read_end = offset + to_read as u64;
+                        if *write_off < read_end && write_end > offset {
+                            let overlap_start = write_off.max(&offset);
+                            let overlap_end = write_end.min(read_end);
+                            let src_offset = (overlap_start - write_off) as usize;
+                            let dst_offset = (overlap_start - offset) as usize;
+                            let len = (overlap_end - overlap_start) as usize;
+                            buf[dst_offset..dst_offset + len]
+                                .copy_from_slice(&data[src_offset..src_offset + len]);
+                        }
                     }
                 }
+                PendingOp::SetLen {
+                    path: p,
+                    len: new_len,
+                    ..
+                } if (p == &content_path || self.path_renamed_to(p, &content_path)) => {
+                    // A truncation discards everything past the new length;
+                    // if the file grows again later that range reads back
+                    // as zeros, not as the old bytes.
+                    let read_end = offset + to_read as u64;
+                    if *new_len < read_end {
+                        let start = new_len.saturating_sub(offset) as usize;
+                        buf[start..to_read].fill(0);
+                    }
+                }
+                _ => {}
             }
         }
 
